@@ -167,6 +167,13 @@ def handleDecoders : List String → Option String
       | .error e => showDecErr e
       | .ok m => joinCalls (sweepHistory D T m ((parseList ";" sweeps).map parseVec)
                               ((parseList ";" syns).map parseVec)))
+  | ["dec.sector", m, v] => some (showVec (sectorSyndrome (parseStack m) (parseVec v)))
+  | ["dec.hwt", v] => some (toString (hammingWt (parseVec v)))
+  | ["dec.blocks", h, v] =>
+    let H := parseStack h
+    let x := parseVec v
+    some (s!"{showVec (extractXSyndrome H (measureSyndrome H x))} {showVec (sectorSyndrome (Hx H) (zPart x))} " ++
+          s!"{showVec (extractZSyndrome H (measureSyndrome H x))} {showVec (sectorSyndrome (Hz H) (xPart x))}")
   | ["dec.valid", n, c] => some (if validCorrection n.toNat! (parseVec c) then "ok" else "invalid")
   | ["dec.updprobs", c, a, y, b] =>
     some (showRats (updProbs (parseVec c) (parseRats a) (parseRats y) (parseRats b)))
